@@ -55,6 +55,12 @@ def main():
             shutil.copy(os.path.join(src, f), os.path.join(out, f))
     patch = os.path.join(out, "patch.diff")
     meta = {"seed_id": sid, "property": prop, "confirmed": {}, "checks": {}}
+    rebased = os.path.join(out, "patch_rebased.diff")
+    if phase == "2" and os.path.exists(rebased):
+        # /repo has moved on under the original patch (a later fix: commit touched its context): the same
+        # change, re-made by hand on the current HEAD; patch.diff stays as delivered
+        patch = rebased
+        meta["patch_used"] = "patch_rebased.diff"
     prev_path = os.path.join(out, "meta.json")
     if os.path.exists(prev_path):
         prev = json.load(open(prev_path))
